@@ -180,3 +180,31 @@ func VH_C14_truncated_source() {
 	verifrt.Assert(cause == nil && dst.ab.DagLoaded(), "C14/truncated-source/can-be-synced-from")
 	verifrt.Reach("C14/truncated-source/end")
 }
+
+// VH_C14_weight_window: after syncing, the loaded node must accept every declared weight its peer
+// accepts (the minimal-weight window of validateLeaf). The peer's state is produced by real
+// operations: a gossiped vertex declaring a large weight, then local proposals.
+func VH_C14_weight_window() {
+	src := vhGenesisLedger("A", spice.New(100, 0))
+	ctx := context.Background()
+	heavy := vhTransfer(1, "A", "B", spice.New(1, 0), nil, vhPeerAddr, 200)
+	heavy.LeftParentHash, heavy.RightParentHash = src.recs[0].v.Hash, src.recs[0].v.Hash
+	verifrt.Assert(src.ab.AddLeaf(ctx, heavy) == nil, "C14/weight/setup-gossip")
+	prev := heavy
+	for k := 2; k <= 3; k++ { // further gossip building on it (the gossip path moves the peer's weight window)
+		v := vhTransfer(k, "A", "B", spice.New(1, 0), nil, vhPeerAddr, uint64(199+k))
+		v.LeftParentHash, v.RightParentHash = prev.Hash, prev.Hash
+		verifrt.Assert(src.ab.AddLeaf(ctx, v) == nil, "C14/weight/setup-gossip-chain")
+		prev = v
+	}
+	dst := vhFreshBook()
+	var cause error
+	dst.ab.LoadDag(func(err error) { cause = err }, src.ab.StreamDAG(ctx))
+	verifrt.Assert(cause == nil && dst.ab.DagLoaded(), "C14/weight/loaded")
+	w := verifrt.NondetU64("declared-weight")
+	onPeer, onLoaded := src.ab.isValidWeight(w), dst.ab.isValidWeight(w)
+	verifrt.Assert(verifrt.Implies(onPeer, onLoaded), "C14/weight/loaded-node-accepts-what-the-peer-accepts")
+	// the converse does not hold by construction (LoadDag restarts the window): pinned separately
+	verifrt.Assert(verifrt.Implies(onLoaded, onPeer), "C14/weight/known/loaded-node-is-not-more-permissive")
+	verifrt.Reach("C14/weight/end")
+}
